@@ -62,6 +62,28 @@ pub fn vx_any<I: Iterator, F: FnMut(I::Item) -> bool>(it: I, f: F) -> (r: bool)
     it.any(f)
 }
 
+/// std `Option::is_some_and`
+#[verifier::external_body]
+pub fn vx_is_some_and<T, F: FnOnce(T) -> bool>(o: Option<T>, f: F) -> (r: bool)
+    requires o is Some ==> f.requires((o.unwrap(),)),
+    ensures
+        o is None ==> !r,
+        o is Some ==> f.ensures((o.unwrap(),), r),
+{
+    o.is_some_and(f)
+}
+
+/// std `Option::or_else`
+#[verifier::external_body]
+pub fn vx_or_else<T, F: FnOnce() -> Option<T>>(o: Option<T>, f: F) -> (r: Option<T>)
+    requires o is None ==> f.requires(()),
+    ensures
+        o is Some ==> r == o,
+        o is None ==> f.ensures((), r),
+{
+    o.or_else(f)
+}
+
 /// Rule R13: `a |= b` on bools is rewritten to `a = vx_bool_or(a, b)`.
 #[verifier::external_body]
 pub fn vx_bool_or(a: bool, b: bool) -> (r: bool)
